@@ -84,8 +84,16 @@ func New(name string, conn net.Conn) *Client { return newClient(name, conn, true
 // NewManual is New without automatic acknowledgements.
 func NewManual(name string, conn net.Conn) *Client { return newClient(name, conn, false) }
 
+// NewStalled is New for a client that does not read from the start (Unstall
+// makes it read): whatever the peer writes first blocks on a synchronous pipe.
+func NewStalled(name string, conn net.Conn) *Client { return newClientOpt(name, conn, true, true) }
+
 func newClient(name string, conn net.Conn, autoAck bool) *Client {
-	c := &Client{Name: name, conn: conn, AutoAck: autoAck, wdone: make(chan struct{}), rdone: make(chan struct{})}
+	return newClientOpt(name, conn, autoAck, false)
+}
+
+func newClientOpt(name string, conn net.Conn, autoAck, stalled bool) *Client {
+	c := &Client{Name: name, conn: conn, AutoAck: autoAck, stalled: stalled, wdone: make(chan struct{}), rdone: make(chan struct{})}
 	c.cond = sync.NewCond(&c.mu)
 	c.wcond = sync.NewCond(&c.wmu)
 	go c.reader()
